@@ -10,6 +10,7 @@
 //	c01 -triage -n 3000                   group failures by site, print one example each
 //	c01 -shrink doc.json [-o out.json]    minimise a failing document
 //	c01 -show doc.json                    print the HTML / CSS of a document and render it
+//	c01 -trace doc.json [-trace-pages n]  print the page trace of a document (layout.VerifPageTrace)
 package main
 
 import (
@@ -22,6 +23,7 @@ import (
 	"sort"
 	"strings"
 	"sync"
+	"time"
 
 	"verifharness/vlib"
 )
@@ -167,6 +169,7 @@ func main() {
 	triage := flag.Bool("triage", false, "print failures grouped by site")
 	shrinkF := flag.String("shrink", "", "minimise the failing document of this file")
 	show := flag.String("show", "", "render the document of this file and print it")
+	traceF := flag.String("trace", "", "print the page trace (first pagination round) of the document of this file")
 	outDoc := flag.String("o", "", "output file for -shrink")
 	htmlF := flag.String("html", "", "render a raw HTML file (engine/hints from -engine/-hints)")
 	engineF := flag.String("engine", "pango", "text engine for -html")
@@ -175,6 +178,7 @@ func main() {
 	confirmMs := flag.Int("confirm-ms", 40000, "second, longer watchdog for documents that exceeded the first one")
 	maxShrunk := flag.Int("max-shrunk", 60, "number of failing documents that are shrunk (the rest is reported unshrunk)")
 	maxShrink := flag.Int("shrink-calls", 120, "render budget per shrunk failing case in the stream")
+	shrinkWall := flag.Int("shrink-wall-ms", 0, "wall-clock budget of the shrinking of one failing case in the stream (0: none)")
 	traceEvery := flag.Int("trace-every", 4, "record the page trace of every k-th document (documents with footnotes and hanging documents are always traced; 0: only those)")
 	tracePages := flag.Int("trace-pages", 60, "page cap of a page trace")
 	flag.Parse()
@@ -193,6 +197,22 @@ func main() {
 		o.Top = nil
 		ob, _ := json.MarshalIndent(o, "", " ")
 		fmt.Printf("%s\n", ob)
+		return
+	}
+	if *traceF != "" {
+		d, _, err := loadDoc(*traceF)
+		if err != nil {
+			fmt.Println(err)
+			os.Exit(2)
+		}
+		o := pool.Trace(d, *tracePages, 5000)
+		fmt.Printf("status=%s site=%s msg=%s\n", o.Status, o.Site, o.Msg)
+		if o.Trace != nil {
+			for i, st := range o.Trace.Steps {
+				fmt.Printf("page %d: %+v\n", i+1, st)
+			}
+			fmt.Printf("footnotes=%d truncated=%v verdict=%s\n%s\n", o.Trace.Footnotes, o.Trace.Truncated, o.Trace.Verdict(), o.Trace.Coq())
+		}
 		return
 	}
 	if *show != "" {
@@ -272,20 +292,34 @@ func main() {
 	for i := range items {
 		docs[i] = items[i].doc
 	}
+	t0 := time.Now()
+	phase := func(name string) {
+		fmt.Fprintf(os.Stderr, "c01: %-14s done at %5.1f s\n", name, time.Since(t0).Seconds())
+	}
 	res := pool.RunAll(docs)
+	phase("stream")
 
-	// a watchdog expiry is re-examined with a longer budget: a document that
-	// returns within it is slow, not hanging (observable Ok, tag "slow")
+	// After the stream, per document and all in parallel (the pool bounds the
+	// number of renders running):
+	//  - a watchdog expiry is re-examined with a longer budget: a document that
+	//    returns within it is slow, not hanging (observable Ok, tag "slow");
+	//  - page traces (model-level tie of the page loop, Check.C01.replay): the first
+	//    pagination round recorded page by page through layout.VerifPageTrace, for the
+	//    documents with footnotes, a sample of the others, and every document that did
+	//    not return (trigger tag: is the page loop stuck or progressing?);
+	//  - panics and stack overflows are shrunk (bounded) to compute the trigger tags.
 	slowMs := make([]int, len(items))
-	{
-		var wg sync.WaitGroup
-		for i := range items {
-			if res[i].Status != "hang" {
-				continue
-			}
-			wg.Add(1)
-			go func(i int) {
-				defer wg.Done()
+	traces := make([]*PageTrace, len(items))
+	traceNote := make([]string, len(items))
+	shrunk := make([]*Doc, len(items))
+	var wg sync.WaitGroup
+	nShrink := 0
+	for i := range items {
+		first := res[i] // outcome of the stream (the goroutine below may replace res[i])
+		wg.Add(1)
+		go func(i int) {
+			defer wg.Done()
+			if res[i].Status == "hang" {
 				o := pool.RunT(docs[i], *confirmMs)
 				if o.Status != "hang" {
 					slowMs[i] = o.Ms
@@ -300,70 +334,55 @@ func main() {
 					}
 					res[i] = o
 				}
-			}(i)
-		}
-		wg.Wait()
-	}
-
-	// page traces (model-level tie of the page loop, Check.C01.replay): the first
-	// pagination round recorded page by page through layout.VerifPageTrace, for the
-	// documents with footnotes, a sample of the others, and every document that did
-	// not return (trigger tag: is the page loop stuck or progressing?)
-	traces := make([]*PageTrace, len(items))
-	traceNote := make([]string, len(items))
-	{
-		var wg sync.WaitGroup
-		for i := range items {
+			}
 			st := res[i].Status
 			failing := st == "hang" || st == "fatal"
 			if !(failing || st == "ok" && (usesFootnotes(docs[i]) || *traceEvery > 0 && i%*traceEvery == 0)) {
-				continue
+				return
 			}
-			wg.Add(1)
-			go func(i int) {
-				defer wg.Done()
-				pages := *tracePages
-				if failing {
-					pages = 40
-				}
-				o := pool.Trace(docs[i], pages, 5000)
-				if o.Status == "ok" && o.Trace != nil {
-					traces[i] = o.Trace
-					traceNote[i] = o.Trace.Verdict()
-				} else if o.Status != "ok" {
-					traceNote[i] = "none:" + o.Status
-				}
-			}(i)
-		}
-		wg.Wait()
-	}
-
-	// shrink failing cases (in parallel, bounded) to compute the trigger tags
-	shrunk := make([]*Doc, len(items))
-	var wg sync.WaitGroup
-	nFail := 0
-	for i := range items {
-		if res[i].Status == "ok" {
+			pages := *tracePages
+			if failing {
+				pages = 40
+			}
+			o := pool.Trace(docs[i], pages, 5000)
+			if o.Status == "ok" && o.Trace != nil {
+				traces[i] = o.Trace
+				traceNote[i] = o.Trace.Verdict()
+			} else if o.Status != "ok" {
+				traceNote[i] = "none:" + o.Status
+			}
+		}(i)
+		// hangs and exhausted memory are not shrunk automatically (a shorter watchdog would
+		// turn the criterion into "slow"): their trigger tags come from the structural analysis
+		if st := first.Status; st == "ok" || st == "hang" || strings.Contains(first.Site, "out-of-memory") {
 			continue
 		}
-		nFail++
-		if nFail > *maxShrunk && !*triage { // a tree this broken is reported unshrunk
+		nShrink++
+		if nShrink > *maxShrunk && !*triage { // a tree this broken is reported unshrunk
 			continue
 		}
 		wg.Add(1)
-		go func(i int) {
+		go func(i int, want Outcome) {
 			defer wg.Done()
-			// hangs are not shrunk automatically (a shorter watchdog would turn the
-			// criterion into "slow"): their trigger tags come from the structural analysis
-			if res[i].Status == "hang" || strings.Contains(res[i].Site, "out-of-memory") {
-				return
+			// a candidate that does not fail within a few times the duration of the
+			// original failure is not the same failure (it may well hang: no need to wait
+			// for the 10 s watchdog)
+			ms := 4*want.Ms + 1500
+			var deadline time.Time
+			if *shrinkWall > 0 {
+				deadline = time.Now().Add(time.Duration(*shrinkWall) * time.Millisecond)
 			}
-			ms := 0
-			budget := *maxShrink
-			shrunk[i], _ = Shrink(docs[i], res[i], func(x *Doc) Outcome { return pool.RunT(x, ms) }, budget)
-		}(i)
+			shrunk[i], _ = ShrinkUntil(docs[i], want, func(x *Doc) Outcome { return pool.RunT(x, ms) }, *maxShrink, deadline)
+		}(i, first)
 	}
 	wg.Wait()
+	nFail := 0
+	for i := range items {
+		if res[i].Status != "ok" {
+			nFail++
+		}
+	}
+	phase("confirm/trace/shrink")
 
 	if *triage {
 		type grp struct {
@@ -445,6 +464,10 @@ func main() {
 		if o.Status != "ok" {
 			ds.Doc = it.doc
 			tags = append(tags, "site="+o.Site)
+			if o.Status == "fatal" {
+				// the function in which the stack / the memory runs out is arbitrary: the kind is the stable part
+				tags = append(tags, "fatal="+strings.SplitN(strings.TrimPrefix(o.Site, "fatal:"), "@", 2)[0])
+			}
 			if o.Status == "panic" && len(o.Frames) > 0 {
 				if p := strings.Fields(o.Frames[0]); len(p) == 2 {
 					tags = append(tags, "fn="+p[1]) // function of the panic site: stable when lines shift
